@@ -249,8 +249,14 @@ def run(chk):
     ts = b2.get("task_start")
     chk.ob("O4.5", "task_start := sampler start timestamp", ts is not None and u(ts) == "self.start_timestamp", ctor[0], "")
 
+    check_execute_single(chk, drv, "O4.6", runs)
+
+
+def check_execute_single(chk, drv, RID, runs=()):
+    """Uniform error result and abort policy of execute_single (shared by C04/O4.6 and C09/O9.5b)."""
+    g = None
     # ---- O4.6 uniform error result ------------------------------------------------------------------------------------------------------------------
-    chk.rule("O4.6", "execute_single: every absorbing handler yields success False and zero ops; the final raise is controlled by not success and (on_error == 'abort' or fatal); "
+    chk.rule(RID, "execute_single: every absorbing handler yields success False and zero ops; the final raise is controlled by not success and (on_error == 'abort' or fatal); "
              "fatal only for the exact ConnectionError type", 5,
              "on-error=continue aborts (or abort continues), or failed requests are counted as operations")
     es = drv.func("execute_single")
@@ -263,14 +269,14 @@ def run(chk):
         absorbing = any(ge.exit.id in ge.reachable([x]) for x in hn)
         tname = u(h.type) if h.type is not None else "<bare>"
         if not absorbing:
-            chk.ob("O4.6", f"handler {tname} raises on every path", True, h, "")
+            chk.ob(RID, f"handler {tname} raises on every path", True, h, "")
             continue
         md = [n for s in h.body for n in ast.walk(s) if isinstance(n, ast.Assign) and isinstance(n.targets[0], ast.Name) and n.targets[0].id == "request_meta_data" and isinstance(n.value, ast.Dict)]
         ok = bool(md) and any(source.is_const(k, "success") and source.is_const(v, False) for k, v in zip(md[0].value.keys, md[0].value.values)) and not guards(md[0], stop=h)
-        chk.ob("O4.6", f"handler {tname}: success False", ok, h, "")
+        chk.ob(RID, f"handler {tname}: success False", ok, h, "")
         ops = [n for s in h.body for n in ast.walk(s) if isinstance(n, ast.Assign) and isinstance(n.targets[0], ast.Name) and n.targets[0].id == "total_ops"]
         ok = bool(ops) and source.is_const(ops[0].value, 0) and not guards(ops[0], stop=h)
-        chk.ob("O4.6", f"handler {tname}: zero ops", ok, h, "")
+        chk.ob(RID, f"handler {tname}: zero ops", ok, h, "")
     raises = [n for n in es.body if isinstance(n, ast.If)]
     fin = [n for n in walk_body(es) if isinstance(n, ast.Raise) and not any(isinstance(a, (ast.ExceptHandler, ast.Try)) for a in source.ancestors(n) if a is not es)]
     ok = False
@@ -306,18 +312,19 @@ def run(chk):
             detail = f"raise under {[(u(t), p) for t, p in gs]}"
         except UnknownAtom as e:
             detail = f"foreign atom in the abort condition: {e}"
-    chk.ob("O4.6", "abort condition == not success and (abort or fatal)", ok, fin[0] if fin else es, detail)
+    chk.ob(RID, "abort condition == not success and (abort or fatal)", ok, fin[0] if fin else es, detail)
     fsets = [n for n in walk_body(es) if isinstance(n, ast.Assign) and isinstance(n.targets[0], ast.Name) and n.targets[0].id == "fatal_error" and source.is_const(n.value, True)]
     ok = bool(fsets) and all(any(pol and u(t) in ("type(e) is elasticsearch.ConnectionError", "type(e) == elasticsearch.ConnectionError") for t, pol in guards(n)) for n in fsets)
-    chk.ob("O4.6", "fatal only for the exact ConnectionError type", ok, fsets[0] if fsets else es, "")
+    chk.ob(RID, "fatal only for the exact ConnectionError type", ok, fsets[0] if fsets else es, "")
     rets = [n for n in es.body if isinstance(n, ast.Return)]
     ok = len(rets) == 1 and isinstance(rets[0].value, ast.Tuple) and [u(x) for x in rets[0].value.elts] == ["total_ops", "total_ops_unit", "request_meta_data"]
-    chk.ob("O4.6", "uniform result triple", ok, rets[0] if rets else es, "")
+    chk.ob(RID, "uniform result triple", ok, rets[0] if rets else es, "")
     # unpacked in the loop in the same order
     for r in runs:
         asg = source.enclosing_stmt(r)
         ok = isinstance(asg, ast.Assign) and isinstance(asg.targets[0], ast.Tuple) and [u(x) for x in asg.targets[0].elts] == ["total_ops", "total_ops_unit", "request_meta_data"]
-        chk.ob("O4.6", "result triple unpacked in order", ok, asg, "")
+        chk.ob(RID, "result triple unpacked in order", ok, asg, "")
+
 
 
 from sa.selftest import V  # noqa: E402
